@@ -195,6 +195,10 @@ func (s *Stats) digest() uint64 {
 
 type knownFinding struct {
 	Prop, Sig, Text string
+	// Example: a committed history (path relative to the verification directory) that exhibits the
+	// finding; it is re-executed at every check, so the KNOWN-FINDING line does not depend on the
+	// batch happening to reach the finding again
+	Example string
 }
 
 func loadKnown(verifDir string) []knownFinding {
@@ -219,6 +223,8 @@ func loadKnown(verifDir string) []knownFinding {
 				k.Prop = strings.TrimPrefix(f, "property=")
 			case strings.HasPrefix(f, "sig=") && k.Sig == "":
 				k.Sig = strings.TrimPrefix(f, "sig=")
+			case strings.HasPrefix(f, "example=") && k.Example == "":
+				k.Example = strings.TrimPrefix(f, "example=")
 			default:
 				rest = append(rest, f)
 			}
@@ -403,6 +409,24 @@ func RunCheck(prop *Prop, tier string, seed uint64, workers int, verifDir string
 	var minInfos []map[string]interface{}
 	replayMismatch := false
 	triaged, skippedTriage := 0, 0
+	knownPrinted := map[string]bool{}
+	for _, k := range known {
+		if k.Prop != prop.ID || k.Example == "" {
+			continue
+		}
+		ex, err := LoadPlan(filepath.Join(verifDir, k.Example))
+		if err != nil {
+			fmt.Fprintf(os.Stderr, "note: the example history of known finding %s cannot be read: %v\n", k.Sig, err)
+			continue
+		}
+		if vv, herr := SafeExecute(prop, ex, NewStats()); herr == nil && vv != nil && vv.Sig == k.Sig {
+			knownSeen[k.Sig]++
+			knownPrinted[k.Sig] = true
+			fmt.Printf("KNOWN-FINDING: property=%s %s\n", prop.ID, k.Text)
+		} else {
+			fmt.Fprintf(os.Stderr, "note: the example history of known finding %s no longer fails that way on this tree\n", k.Sig)
+		}
+	}
 	for _, fp := range failing {
 		v := fp.Violation
 		key := v.Oracle + "|" + v.Sig
@@ -460,7 +484,10 @@ func RunCheck(prop *Prop, tier string, seed uint64, workers int, verifDir string
 			if k.Prop == prop.ID && k.Sig == minV.Sig {
 				isKnown = true
 				knownSeen[k.Sig]++
-				fmt.Printf("KNOWN-FINDING: property=%s %s\n", prop.ID, k.Text)
+				if !knownPrinted[k.Sig] {
+					knownPrinted[k.Sig] = true
+					fmt.Printf("KNOWN-FINDING: property=%s %s\n", prop.ID, k.Text)
+				}
 			}
 		}
 		if isKnown {
